@@ -23,6 +23,9 @@ package gcsca
 // (an existing object is never silently kept in place of the data that should have been stored: outside --keep_going the
 // refusal to overwrite is an error, so no manifest entry is made for a certificate that was not stored)
 //@   ensures[C03,C11,C12] old(diskHas)[path] && !allowOverwrite(ctx) && !allowRecoverable(ctx) ==> err != nil
+// (with overwrite permission, or for a new object, success means the object now holds exactly the given data - a
+// leftover of an earlier attempt is replaced, never kept)
+//@   ensures[C03,C10,C11] err == nil && (allowOverwrite(ctx) || !old(diskHas)[path]) ==> diskData[path] == val(data)
 //@   ensures[C12] !allowOverwrite(ctx) ==> clobbers == old(clobbers)
 
 // entriesStored: every manifest entry names an object present on the ghost disk.
